@@ -899,6 +899,15 @@ pub fn cases(r: &mut Rng, thorough: bool, out: &mut Vec<Case>) {
         out.push(Case::big("radix/u64", &[rb, 0, 10_000, 256, 0], &[6, n, seed + rb + 1, 64]));
         out.push(Case::big("adv/u64", &[3, rb, 1, 10_000, 3, 100, 1, 0], &[0, n, seed + rb + 2, 64]));
     }
+    // skewed digits at sizes where one bucket holds 2^16 elements and more (sequentially, and per chunk of the parallel path)
+    for (i, &(kind, n, par)) in [(2u64, 65_536u64, 0u64), (6, 65_537, 0), (1, 131_073, 0), (11, 65_536, 0), (1, 1 << 20, 1), (6, (1 << 20) + 5, 1), (2, 1 << 20, 1)].iter().enumerate() {
+        let s2 = seed + 200 + i as u64;
+        out.push(Case::big("radix/u32", &[8, par, 10_000, 256, (i % 2) as u64], &[kind, n, s2, 32]));
+        out.push(Case::big("radix/u64", &[8, par, 10_000, 256, (i % 2) as u64], &[kind, n, s2 + 10, 64]));
+        out.push(Case::big("adv/u32", &[3, 8, par, 10_000, 0, 100, (i % 2) as u64, 0], &[kind, n, s2 + 20, 32]));
+        out.push(Case::big("adv/u64", &[6, 8, par, 10_000, 0, 100, (i % 2) as u64, 0], &[kind, n, s2 + 30, 64]));
+        if n < 200_000 { out.push(Case::big("kv/u64", &[], &[kind, n, s2 + 40, 64])); }
+    }
     // the nearly-sorted test looks at the first 1000 elements only
     for &(kind, n) in &[(9u64, 1_000u64), (9, 1_001), (9, 1_500), (10, 1_500), (10, 12_000), (5, 999)] {
         out.push(Case::big("adv/u32", &[0, 8, 1, 10_000, 0, 100, 1, 0], &[kind, n, seed + n, 32]));
@@ -951,7 +960,9 @@ pub fn cases(r: &mut Rng, thorough: bool, out: &mut Vec<Case>) {
             let n = if s == 0 && pt_eff < 1000 { 2 * pt_eff + r.below(9) as usize }
                     else { gen_len(r, &[it_eff, it_eff + 1, pt_eff.min(400), 16]).min(400) };
             let name = match r.below(6) { 0 => "exec", 1 => "estimate", _ => "sort" };
-            c.ops.push(op_xs(name, gen_ints(r, n, bits)));
+            // magnitudes change from step to step (first small keys, later large ones and back)
+            let sh = if s == 0 { *r.pick(&[bits - 4, bits - 9, bits - 16]) } else { *r.pick(&[0u32, 0, 3, bits - 12, bits - 20]) };
+            c.ops.push(op_xs(name, gen_ints(r, n, bits).iter().map(|&x| x >> sh).collect()));
         }
         if (ctor == 1 || ctor == 2) && k % 8 < 2 { c.ops.insert(1, op_gen("sort", &[0, 20_001, seed + 60 + k as u64, bits as u64])); }
         out.push(c);
